@@ -40,6 +40,8 @@ func customRoutes(cfg *config.Custom, ch chan string) {
 	req, err := http.NewRequest("GET", URL, nil)
 	if err != nil {
 		log.Printf("[ERROR] Can not generate new HTTP request")
+		ch <- fmt.Sprintf("Error creating HTTP request for custom be - %s -%s", URL, err.Error())
+		return
 	}
 	req.Close = true
 
